@@ -34,7 +34,7 @@ OTHER_VALUE = "as.constant 7.25"
 
 
 @st.composite
-def _case(draw, op):
+def _case(draw, op, later=False):
     if op in ("ws_fs_density",):
         targets = ["setfl_fs", "DL_POLY_EAM_fs", "excel_eam_fs"]
     elif op == "same_key_embed_density":
@@ -46,7 +46,7 @@ def _case(draw, op):
     m = draw(gen.any_model(targets, 2, 3, depth=1, tables=False))
     if op in ("ws_formula_signature", "formula_other_params", "table_named_like_formula", "formula_label_other_case") and not m["env"]["custom"]:
         m["env"]["custom"] = draw(gen.custom_forms(2, 1, min_forms=1))
-    if op in ("table_named_like_formula", "formula_other_params", "formula_label_other_case") and draw(st.integers(0, 2)) > 0:
+    if op in ("table_named_like_formula", "formula_other_params", "formula_label_other_case") and (later or draw(st.integers(0, 2)) > 0):
         # several formulas, so that the clashing one is not always the first entry of its section
         have = set(c["name"] for c in m["env"]["custom"])
         extra = [c for c in draw(gen.custom_forms(2, 1, min_forms=1)) if c["name"] not in have]
@@ -55,7 +55,10 @@ def _case(draw, op):
             m["env"]["custom"] = (extra + m["env"]["custom"]) if draw(st.booleans()) else (m["env"]["custom"] + extra)
     if op.startswith("table_") and not m["env"]["table"]:
         m["env"]["table"] = [draw(gen.table_form("tab1", 6))]
-    return {"model": m, "op": op, "site": draw(st.integers(0, 50)), "before": draw(st.booleans()),
+    site = draw(st.integers(0, 50))
+    if later and len(m["env"]["custom"]) > 1:
+        site = draw(st.integers(1, len(m["env"]["custom"]) - 1))     # the clashing formula is not the first entry
+    return {"model": m, "op": op, "site": site, "before": draw(st.booleans()),
             # blanks, tabs and the non-ASCII blanks (no-break, thin, ideographic space): all are whitespace to str.split()
             "ws": draw(st.sampled_from([" ", "  ", "\t", "\u00a0", "\u2009", "\u3000"]))}
 
@@ -65,7 +68,7 @@ def strategy(tier):
 
 
 def strata(tier):
-    return [(o, _case(o), 1) for o in OPERATORS]
+    return [(o, _case(o), 1) for o in OPERATORS] + [("table_named_like_formula:later_entry", _case("table_named_like_formula", True), 1)]
 
 
 def budget(tier):
